@@ -5,4 +5,6 @@ export CARGO_NET_OFFLINE=true
 cd "$(dirname "$0")"
 mkdir -p work replays evidence
 (cd harness && cargo build --offline --bins 2>&1 | tail -3)
+# konst built with its `debug` feature (own target directory), used by the C01 and C03 quick checks
+(cd harness && cargo build --offline --features konst_debug --target-dir target/feat-konst_debug --bin c01 --bin c03 2>&1 | tail -1)
 echo "setup ok"
